@@ -126,6 +126,13 @@ func shortenOK(orig, short string, width int) string {
 	return ""
 }
 
+func c15Head(d gen.Day, layout string) string {
+	if d.Head != "" {
+		return d.Head
+	}
+	return d.Date.Format(layout)
+}
+
 func runC15(c *core.Ctx) {
 	c.SetRule("cases: generated logs/books (exact number pool so that the sign of every amount is known; days without entries; names longer than the 27/20-rune columns incl. multi-byte) x presentation flags of reg {colour on/off, template default/left-aligned/old, --shorten, default/--no-totals/--totals-only}, colour on summary, --desc on report quantity/element-total, --no-color given globally vs on the sub-command. Oracle: (a) coloured output minus escape codes == plain output, every amount red/green/uncoloured by sign; (b) --shorten shows the same records and numbers, names within the column as prefix+ellipsis+suffix; (c) default reg == per-day interleaving of --no-totals and --totals-only; (e) --desc = same rows, non-increasing; (f) flag position does not matter. (b') left-aligned and old reporter show the same records and numbers as the default; collapse modes are C03's. Non-trivial = input with an amount of each sign; distinct = hash(files, flags).")
 	pool := newPool(c, c.Procs)
@@ -176,11 +183,31 @@ func runC15(c *core.Ctx) {
 			w.LogText = gen.RenderLog(w.Log, w.Layout, nil)
 			c.Count("inputs_with_a_name_that_is_entry_and_category", 1)
 		}
+		var layoutFlags []string
+		if i%7 == 3 && len(w.Log) >= 2 {
+			// a layout with a time of day and a zone offset; consecutive headings may denote the same instant under
+			// different texts (00:30 +0200 and 22:30 +0000 of the day before): every renderer shows each heading as written
+			offs := []string{"+0200", "+0000", "-0500", "+0530"}
+			for di := range w.Log {
+				d := w.Log[di].Date
+				w.Log[di].Head = d.Format("2006/01/02") + " 12:00 " + offs[r.Intn(len(offs))]
+				if di > 0 && r.Intn(2) == 0 {
+					p := w.Log[di-1].Date
+					w.Log[di-1].Head = p.Format("2006/01/02") + " 00:30 +0200"
+					w.Log[di].Date = p.AddDays(-1)
+					w.Log[di].Head = p.AddDays(-1).Format("2006/01/02") + " 22:30 +0000"
+				}
+			}
+			w.Layout = "2006/01/02 15:04 -0700"
+			layoutFlags = []string{"--date-format", w.Layout}
+			w.LogText = gen.RenderLog(w.Log, w.Layout, nil)
+			c.Count("inputs_in_a_zoned_layout_with_equal_instants", 1)
+		}
 		files := w.Files()
 		srv.Write(files)
 		runArgs := func(args ...string) run.Result {
 			c.Eval(1)
-			full := append([]string{"-d", "food.yaml", "-l", "log.yaml"}, args...)
+			full := append(append([]string{"-d", "food.yaml", "-l", "log.yaml"}, layoutFlags...), args...)
 			return srv.App1(respell(c.Rng("spell", i), full), nil)
 		}
 		doc := func(note string, args []string, a, b run.Result) caseDoc {
@@ -197,7 +224,7 @@ func runC15(c *core.Ctx) {
 		}
 
 		// (a) colour
-		for _, tmpl := range [][]string{{"reg"}, {"reg", "--internal-template-name", "left-aligned"}, {"reg", "--use-old-reg-reporter"}, {"reg", "--totals-only"}, {"reg", "--shorten"}, {"summary", w.Log[0].Date.Format(w.Layout)}} {
+		for _, tmpl := range [][]string{{"reg"}, {"reg", "--internal-template-name", "left-aligned"}, {"reg", "--use-old-reg-reporter"}, {"reg", "--totals-only"}, {"reg", "--shorten"}, {"summary", c15Head(w.Log[0], w.Layout)}} {
 			col := runArgs(tmpl...)
 			plain := runArgs(append([]string{"--no-color"}, tmpl...)...)
 			name := strings.Join(tmpl[:min(2, len(tmpl))], " ")
